@@ -1,6 +1,7 @@
 import MaestroVerif.Model.Expand
 import MaestroVerif.Lemmas.SubstLemmas
 import MaestroVerif.Lemmas.CsvLemmas
+import MaestroVerif.Lemmas.ExpandNames
 import MaestroVerif.Lemmas.ExpandPlace
 import MaestroVerif.Lemmas.ExpandAdj
 import MaestroVerif.Lemmas.ExpandInv
@@ -61,95 +62,6 @@ theorem C08_direct_params_exact (spec : Spec) (st : Step) (k : Str) :
       (k ∈ spec.params.map (·.key) ∧ ∃ t, t ∈ st.texts ∧ usesParam k t = true) := by
   simp [directParams, List.mem_filter, List.any_eq_true]
 
-theorem mem_union {a : Str} {x y : List Str} : a ∈ union x y ↔ a ∈ x ∨ a ∈ y := by
-  unfold union
-  induction y generalizing x with
-  | nil => simp
-  | cons b bs ih =>
-    simp only [List.foldl_cons, ih]
-    split
-    · rename_i h; have : b ∈ x := by simpa using h
-      simp; grind
-    · simp; grind
-
-theorem deps_fold_mem (usedTbl : List (Str × List Str)) (a : Str) : ∀ (ds : List Str) (acc : List Str),
-    a ∈ ds.foldl (fun acc d => union acc (getAssoc usedTbl d)) acc ↔
-      (a ∈ acc ∨ ∃ d, d ∈ ds ∧ a ∈ getAssoc usedTbl d) := by
-  intro ds
-  induction ds with
-  | nil => intro acc; simp
-  | cons d ds ih =>
-    intro acc
-    simp only [List.foldl_cons, ih, mem_union]
-    constructor
-    · rintro ((h | h) | ⟨d', hd', h⟩)
-      · exact Or.inl h
-      · exact Or.inr ⟨d, by simp, h⟩
-      · exact Or.inr ⟨d', by simp [hd'], h⟩
-    · rintro (h | ⟨d', hd', h⟩)
-      · exact Or.inl (Or.inl h)
-      · rcases List.mem_cons.mp hd' with e | e
-        · subst e; exact Or.inl (Or.inr h)
-        · exact Or.inr ⟨d', e, h⟩
-
-theorem refs_fold_mem (usedTbl : List (Str × List Str)) (hub : List Str) (a : Str) :
-    ∀ (ws : List Str) (acc : List Str) (res : List Str),
-    ws.foldl (fun (acc : Except Err (List Str)) w =>
-      match acc with
-      | .error e => .error e
-      | .ok pp =>
-        if !(usedTbl.any (·.1 == w)) then .error .wsBeforeGenerated
-        else if hub.contains w then .ok pp
-        else .ok (union pp (getAssoc usedTbl w))) (.ok acc) = .ok res →
-    (a ∈ res ↔ (a ∈ acc ∨ ∃ w, w ∈ ws ∧ w ∉ hub ∧ a ∈ getAssoc usedTbl w)) := by
-  intro ws
-  induction ws with
-  | nil => intro acc res h; simp only [List.foldl_nil, Except.ok.injEq] at h; subst h; simp
-  | cons w ws ih =>
-    intro acc res h
-    simp only [List.foldl_cons] at h
-    split at h
-    · -- error: the fold stays an error
-      exfalso
-      have : ∀ (l : List Str), l.foldl (fun (acc : Except Err (List Str)) w =>
-          match acc with
-          | .error e => .error e
-          | .ok pp =>
-            if !(usedTbl.any (·.1 == w)) then .error .wsBeforeGenerated
-            else if hub.contains w then .ok pp
-            else .ok (union pp (getAssoc usedTbl w))) (.error .wsBeforeGenerated) =
-          .error .wsBeforeGenerated := by
-        intro l; induction l with
-        | nil => rfl
-        | cons x xs ih' => simpa using ih'
-      rw [this] at h; cases h
-    · split at h
-      · rename_i hh
-        have hw : w ∈ hub := by simpa using hh
-        rw [ih acc res h]
-        constructor
-        · rintro (h' | ⟨w', hw', hn, h'⟩)
-          · exact Or.inl h'
-          · exact Or.inr ⟨w', by simp [hw'], hn, h'⟩
-        · rintro (h' | ⟨w', hw', hn, h'⟩)
-          · exact Or.inl h'
-          · rcases List.mem_cons.mp hw' with e | e
-            · subst e; exact absurd hw hn
-            · exact Or.inr ⟨w', e, hn, h'⟩
-      · rename_i hh
-        have hw : w ∉ hub := by simpa using hh
-        rw [ih _ res h, mem_union]
-        constructor
-        · rintro ((h' | h') | ⟨w', hw', hn, h'⟩)
-          · exact Or.inl h'
-          · exact Or.inr ⟨w, by simp, hw, h'⟩
-          · exact Or.inr ⟨w', by simp [hw'], hn, h'⟩
-        · rintro (h' | ⟨w', hw', hn, h'⟩)
-          · exact Or.inl (Or.inl h')
-          · rcases List.mem_cons.mp hw' with e | e
-            · subst e; exact Or.inl (Or.inr h')
-            · exact Or.inr ⟨w', e, hn, h'⟩
-
 /-- **The used parameters of a step are exactly: those it mentions, those of
 its ordinary dependencies, and those of the referenced workspaces that are not
 funnel dependencies** (`usedTbl` holds the sets of the steps staged before). -/
@@ -158,26 +70,8 @@ theorem C08_used_closure (spec : Spec) (usedTbl : List (Str × List Str)) (st : 
     k ∈ used ↔
       (k ∈ directParams spec st ∨
        (∃ d, d ∈ depsOf st ∧ k ∈ getAssoc usedTbl d) ∨
-       (∃ w, w ∈ refsOf st ∧ w ∉ hubOf st ∧ k ∈ getAssoc usedTbl w)) := by
-  unfold usedOf at h
-  cases hi : inheritedParams usedTbl st with
-  | error e => simp [hi] at h
-  | ok pp =>
-    simp only [hi, Except.ok.injEq] at h
-    subst h
-    unfold inheritedParams at hi
-    have := refs_fold_mem usedTbl (hubOf st) k (refsOf st) _ pp hi
-    rw [mem_union, this, deps_fold_mem]
-    simp only [List.not_mem_nil, false_or]
-    constructor
-    · rintro ((h | h) | h)
-      · exact Or.inr (Or.inl h)
-      · exact Or.inr (Or.inr h)
-      · exact Or.inl h
-    · rintro (h | h | h)
-      · exact Or.inr h
-      · exact Or.inl (Or.inl h)
-      · exact Or.inl (Or.inr h)
+       (∃ w, w ∈ refsOf st ∧ w ∉ hubOf st ∧ k ∈ getAssoc usedTbl w)) :=
+  usedOf_closure spec usedTbl st used h k
 
 /-- a step that uses no parameter is instantiated under its own name, whatever
 the combination -/
@@ -190,43 +84,14 @@ theorem sortDedup_congr {a b : List Str} (h : ∀ x, x ∈ a ↔ x ∈ b) (hs : 
     ∀ c : Combo, c.paramString a = c.paramString b := by
   intro c; simp [Combo.paramString, hs]
 
-theorem joinWith_eq_csv (sep : Str) (l : List Str) : joinWith sep l = Csv.join sep l := by
-  induction l with
-  | nil => rfl
-  | cons x xs ih =>
-    cases xs with
-    | nil => rfl
-    | cons y ys => simp only [joinWith, Csv.join, ih]
-
 /-- **Instances are shared exactly between combinations that agree on the used
 parameters** (`NamesInjective` here: labels contain no `.`, the separator of the
 name; the collision that arises otherwise is known finding D9). -/
 theorem C08_sharing_exact (step : Str) (used : List Str) (hu : used ≠ []) (c₁ c₂ : Combo)
     (hdot : ∀ k, k ∈ used → '.' ∉ lookup c₁.labels k ∧ '.' ∉ lookup c₂.labels k) :
     instName step used c₁ = instName step used c₂ ↔
-      ∀ k, k ∈ used → lookup c₁.labels k = lookup c₂.labels k := by
-  have hne : used.isEmpty = false := by simpa using hu
-  simp only [instName, hne, Bool.false_eq_true, ↓reduceIte, List.append_cancel_left_eq,
-    Combo.paramString, joinWith_eq_csv]
-  have hsd : sortDedup used ≠ [] := by
-    intro h
-    cases used with
-    | nil => exact hu rfl
-    | cons a as => have := (mem_sortDedup (a := a) (l := a :: as)).mpr (by simp); rw [h] at this; simp at this
-  constructor
-  · intro h k hk
-    have h1 := Csv.splitOn_join '.' ((sortDedup used).map (lookup c₁.labels)) (by simpa using hsd)
-      (by intro f hf; obtain ⟨k', hk', rfl⟩ := List.mem_map.mp hf; exact (hdot k' (mem_sortDedup.mp hk')).1)
-    have h2 := Csv.splitOn_join '.' ((sortDedup used).map (lookup c₂.labels)) (by simpa using hsd)
-      (by intro f hf; obtain ⟨k', hk', rfl⟩ := List.mem_map.mp hf; exact (hdot k' (mem_sortDedup.mp hk')).2)
-    rw [h, h2] at h1
-    have := List.map_inj_left.mp h1.symm k (mem_sortDedup.mpr hk)
-    exact this
-  · intro h
-    congr 1
-    apply List.map_congr_left
-    intro k hk
-    exact h k (mem_sortDedup.mp hk)
+      ∀ k, k ∈ used → lookup c₁.labels k = lookup c₂.labels k :=
+  instName_inj step used hu c₁ c₂ hdot
 
 /-- the parameters attached to an instance are the sorted used keys with this
 combination's values -/
@@ -618,7 +483,40 @@ theorem C08_finished_deps_exact (spec : Spec) (hB : noClashB spec = true)
     {ord : List Str → List Str} (ho : IsPermOracle ord) (sf : SS) (h : stageSS spec ord = .ok sf) :
     stage spec ord = .ok sf.g ∧ ∀ st, st ∈ spec.steps → DepsOK spec sf st :=
   ⟨by rw [stage_eq_stageSS, h],
-   stageSS_deps_exact spec (noClash_of_noClashB spec hB) (crossInj_of_noClashB spec hB) hselfAll hsrc hnames ho sf h⟩
+   fun st hst => (stageSS_deps_exact spec (noClash_of_noClashB spec hB) (crossInj_of_noClashB spec hB)
+     hselfAll hsrc hnames ho sf h st hst).1⟩
+
+/-- **… row by row, when the instance name determines the labels** (`NameInj`: two rows that give a
+step the same instance name agree on the labels of its used parameters - `C08_nameInj_of_dotFree`:
+so it is when no label holds the `.` that joins them; the complement is the other half of the known
+finding C08-name-collision): the dependency set of the
+instance of *every* row is exactly what that row is owed - rows that share an instance name are
+owed the same parents, because the used parameters of a dependency are among the step's own
+(`usedOf_closure`, carried to the end of staging) and the name determines the labels of the used
+parameters (`C08_sharing_exact`). -/
+theorem C08_finished_deps_exact_per_row (spec : Spec) (hB : noClashB spec = true) (hdot : NameInj spec)
+    (hselfAll : ∀ st, st ∈ spec.steps → st.name ∉ hubOf st)
+    (hsrc : ∀ st, st ∈ spec.steps → st.name ≠ SOURCE)
+    (hnames : (spec.steps.map (·.name)).Nodup)
+    {ord : List Str → List Str} (ho : IsPermOracle ord) (sf : SS) (h : stageSS spec ord = .ok sf) :
+    ∀ st, st ∈ spec.steps → DepsExact spec sf st := by
+  intro st hst
+  obtain ⟨h1, h2⟩ := stageSS_deps_exact spec (noClash_of_noClashB spec hB) (crossInj_of_noClashB spec hB)
+    hselfAll hsrc hnames ho sf h st hst
+  exact depsExact_of_ok spec hdot sf st h1 h2
+
+theorem C08_nameInj_of_dotFree (spec : Spec) (hdot : DotFree spec) : NameInj spec :=
+  nameInj_of_dotFree spec hdot
+
+/-- the used parameters of an ordinary dependency are among the step's own, in the final tables -/
+theorem C08_used_closed_finally (spec : Spec) (hB : noClashB spec = true)
+    (hselfAll : ∀ st, st ∈ spec.steps → st.name ∉ hubOf st)
+    (hsrc : ∀ st, st ∈ spec.steps → st.name ≠ SOURCE)
+    (hnames : (spec.steps.map (·.name)).Nodup)
+    {ord : List Str → List Str} (ho : IsPermOracle ord) (sf : SS) (h : stageSS spec ord = .ok sf) :
+    ∀ st, st ∈ spec.steps → ∀ p, p ∈ depsOf st → ∀ k, k ∈ getAssoc sf.used p → k ∈ getAssoc sf.used st.name :=
+  fun st hst => (stageSS_deps_exact spec (noClash_of_noClashB spec hB) (crossInj_of_noClashB spec hB)
+    hselfAll hsrc hnames ho sf h st hst).2
 
 /-- what the check on the names buys: instance names of steps with different names never coincide -/
 theorem C08_names_cross_injective (spec : Spec) (hB : noClashB spec = true) : CrossInj spec :=
@@ -629,5 +527,16 @@ permutation oracle) -/
 example : (∀ st, st ∈ demoSpec.steps → st.name ∉ hubOf st) ∧ (demoSpec.steps.map (·.name)).Nodup := by
   decide +kernel
 example : IsPermOracle id := fun l => List.Perm.refl l
+
+/-- the demonstration study with labels that hold no `.` (`SIZE-%%`) -/
+def demoSpecDash : Spec :=
+  { demoSpec with params := [{ key := "SIZE".toList, name := "SIZE".toList, tmpl := some "SIZE-%%".toList,
+                               labels := [], values := ["10".toList, "20".toList] }] }
+
+example : dotFreeB demoSpecDash = true ∧ noClashB demoSpecDash = true := by decide +kernel
+
+/-- `DotFree` is a check over the table -/
+theorem C08_dotFree_decidable (spec : Spec) (h : dotFreeB spec = true) : DotFree spec :=
+  dotFree_of_dotFreeB spec h
 
 end MaestroVerif.C08
